@@ -34,6 +34,7 @@ Dims ==
     minTee   |-> <<"unset", "allEqual", "allBelow", "empty", "aboveFirst", "aboveSecond", "aboveLast", "belowThenAbove", "aboveThenBelow",
                    "above0Below1", "below0Above1", "aboveOnlyLastBelowRest",
                    "len1", "len15", "len17", "len17Above">>,
+    quoteRtmrs |-> <<"four", "three", "none", "five">>,      \* how many RTMR entries the quote *message* carries (bytes always carry four): not four is no quote
     xfamBits |-> <<"base">> \o BitStates("set") \o <<"clear0", "clear1">>,
     tdAttrBits |-> <<"zero">> \o BitStates("set") ]
 
@@ -79,6 +80,7 @@ Reading(d, v) ==
          (CASE v \in {"unset", "allEqual", "allBelow", "empty"} -> "pass"
             [] v \in {"aboveFirst", "aboveSecond", "aboveLast", "belowThenAbove", "aboveThenBelow", "above0Below1", "below0Above1", "aboveOnlyLastBelowRest"} -> "miss"   \* component-wise, not lexicographic
             [] OTHER -> "malformed")
+    [] d = "quoteRtmrs" -> (IF v = "four" THEN "pass" ELSE "miss")
     [] d = "xfamBits" ->
          (CASE v = "base" -> "pass" [] v \in {"clear0", "clear1"} -> "miss"
             [] OTHER -> IF BitOf(v) \in XfamAllowed THEN "pass" ELSE "miss")
@@ -90,17 +92,18 @@ Literal(c) == IF \A d \in DimNames : Reading(d, c[d]) = "pass" THEN "ok"
               ELSE IF \A d \in DimNames : Reading(d, c[d]) \in {"pass", "malformedButMet"} THEN "either"
               ELSE "reject"
 \* C14: conversion must fail exactly for malformed messages (dimensions that exist in a policy message)
-PolicyDims == DimNames \ {"xfamBits", "tdAttrBits"}
+PolicyDims == DimNames \ {"xfamBits", "tdAttrBits", "quoteRtmrs"}
 Malformed(c) == \E d \in PolicyDims : Reading(d, c[d]) \in {"malformed", "malformedButMet"}
 \* DEV (as coded): an explicitly empty, non-nil byte string is refused as well ("length is 0").  C14 allows a conversion to fail
 \* ("either fails or ..."), so this is a modelled deviation, not a finding; the trace specification accepts either outcome there.
 ExplicitEmpty(c) == \E d \in ByteFields \cup {"minTee"} : c[d] = "empty"
 
 (* ------------------------------- the checks as coded --------------------------------- *)
-Checks == <<"convert", "exactBytes", "rtmrs", "anyMrTd", "minTee", "minQe", "minPce", "xfam", "tdAttributes">>
+Checks == <<"convert", "quote", "exactBytes", "rtmrs", "anyMrTd", "minTee", "minQe", "minPce", "xfam", "tdAttributes">>
 
 CheckResult(k, c, mode) ==
   CASE k = "convert" -> IF IsPolicy(mode) /\ (Malformed(c) \/ ExplicitEmpty(c)) THEN "refuse" ELSE "ok"
+    [] k = "quote" -> IF c.quoteRtmrs = "four" THEN "ok" ELSE "abort"        \* CheckQuoteV4 first: a malformed message is refused before any comparison
     [] k = "exactBytes" -> IF \A f \in ByteFields : Reading(f, c[f]) = "pass" THEN "ok" ELSE "err"
     [] k = "rtmrs" -> IF Reading("rtmrs", c.rtmrs) = "pass" THEN "ok" ELSE "err"
     [] k = "anyMrTd" -> IF Reading("anyMrTd", c.anyMrTd) \in {"pass", "malformedButMet"} THEN "ok" ELSE "err"   \* first matching entry wins
@@ -122,9 +125,11 @@ Init == /\ c \in Cases /\ mode \in Modes /\ Realisable(c, mode)
 Step(k) == /\ result = "none" /\ pc <= Len(Checks) /\ Checks[pc] = k
            /\ LET r == CheckResult(k, c, mode)
               IN IF r = "refuse" THEN result' = "refused" /\ UNCHANGED <<pc, errs>>
+                 ELSE IF r = "abort" THEN result' = "reject" /\ UNCHANGED <<pc, errs>>
                  ELSE /\ pc' = pc + 1 /\ errs' = errs + (IF r = "err" THEN 1 ELSE 0) /\ UNCHANGED result   \* errors are combined, not short-circuited
            /\ UNCHANGED <<c, mode>>
 Convert      == Step("convert")
+QuoteShape   == Step("quote")
 ExactBytes   == Step("exactBytes")
 Rtmrs        == Step("rtmrs")
 AnyMrTd      == Step("anyMrTd")
@@ -136,7 +141,7 @@ TdAttributes == Step("tdAttributes")
 Finish == /\ result = "none" /\ pc = Len(Checks) + 1
           /\ result' = IF errs = 0 THEN "ok" ELSE "reject"
           /\ UNCHANGED <<c, mode, pc, errs>>
-Next == Convert \/ ExactBytes \/ Rtmrs \/ AnyMrTd \/ MinTee \/ MinQe \/ MinPce \/ Xfam \/ TdAttributes \/ Finish
+Next == Convert \/ QuoteShape \/ ExactBytes \/ Rtmrs \/ AnyMrTd \/ MinTee \/ MinQe \/ MinPce \/ Xfam \/ TdAttributes \/ Finish
 Spec == Init /\ [][Next]_vars
 
 Done == result # "none"
